@@ -46,7 +46,10 @@ Theorem C16_edges_sound : forall st, In st sites -> carries st = true ->
 Proof. exact site_thread_oplan. Qed.
 Print Assumptions C16_edges_sound.
 
-(** end to end: any number of threads, each running the fragment of some site under its own valuation *)
+(** FRAGMENT theorem: any number of threads, each running the fragment of ONE site of the table (plan from the
+    start of its handler to the site, then releasing what is held) under its own valuation.  That a whole
+    handler execution is a succession of such fragments is not proved here; loops are followed twice,
+    branches merge to one representative continuation (every site of every branch is a fragment of its own). *)
 Theorem C16_no_deadlock_sites : forall (ths : list (site * (snode -> node))),
   (forall st rho, In (st, rho) ths -> In st sites /\ carries st = true /\ respects rho (full_path st)) ->
   forall s, reachable clock clock_eqb ccall ccall_eqb (map (fun x => site_thread (snd x) (fst x)) ths) s ->
@@ -124,3 +127,11 @@ Proof. exact canonical_respects. Qed.
 Example C16_cross_directory_rename_allowed :
   under true (ORename ["a"; "x"; "f"] ["a"; "y"; "g"])%string /\ under false (ORenameDir ["b"; "d"] ["b"; "e"; "d2"])%string.
 Proof. exact cross_directory_rename_allowed. Qed.
+
+(** completeness of the generated table (shared with C07): expected handler->backend calls, expected access
+    sites of every guarded map (fids, tags, childNodes, childRefs, childRefNames, pool.cache, Client.pending,
+    Mapper.paths), fidRef constructions.  Aliases of a guarded map (m := cs.fids; m[k]) are tracked by the
+    generator and their uses are access sites like any other. *)
+Theorem C16_tables_complete : calls_complete && access_complete && new_complete = true.
+Proof. exact tables_complete. Qed.
+Print Assumptions C16_tables_complete.
